@@ -3,6 +3,7 @@ package checks
 import (
 	"context"
 	"fmt"
+	"github.com/bartossh/Computantis/src/transaction"
 	"sync"
 	"sync/atomic"
 	"time"
@@ -615,6 +616,121 @@ func c08HeavyVertex(w *core.WorkerCtx) {
 	}
 }
 
+// c08TruncateUnderLoad: the node's own truncation loop is woken (a vertex whose weight crosses the next mark) while
+// several writers keep proposing and gossiping: every writer call must return. The truncation routine picks the signal
+// up and then needs the ledger lock that the writers keep taking.
+func c08TruncateUnderLoad(w *core.WorkerCtx) {
+	rng := core.Rand(w.Seed, "C08u", w.Batch)
+	desc := fmt.Sprintf("c08 truncation loop woken under write load (Config.Truncate=2000) seed=%d batch=%d", w.Seed, w.Batch)
+	w.Mark("%s", desc)
+	world := ledger.NewWorld(rng, w.R, []string{"C08"}, 0, desc)
+	world.TruncateAt = 2000
+	_, err := ledger.Setup(world, ledger.Profile{Nodes: 1, Users: 4, SupplyClass: 0, Delivery: "lockstep"})
+	if err != nil {
+		w.R.Inconc("setup failed: " + err.Error())
+		return
+	}
+	e := &c08env{w: w, world: world, n: world.Nodes[0]}
+	for i := 0; i < 20 && !e.dead; i++ {
+		e.grow(false)
+	}
+	book := e.n.Book
+	u := world.Users
+	var stop, dead atomic.Bool
+	var done atomic.Int64
+	var wg sync.WaitGroup
+	var mu sync.Mutex // world.NewTrx / world.Now are not concurrency safe
+	newTrx := func(i int, tag string) transaction.Transaction {
+		mu.Lock()
+		defer mu.Unlock()
+		return world.NewTrx(u[0], u[1+i%3].Addr, spice.Melange{SupplementaryCurrency: uint64(1 + i%5)}, []byte(tag))
+	}
+	guarded := func(what string, f func()) {
+		fin := make(chan struct{})
+		go func() { defer close(fin); f() }()
+		select {
+		case <-fin:
+			done.Add(1)
+		case <-time.After(25 * time.Second):
+			if !dead.Swap(true) {
+				sig, detail := gmon.Signature()
+				if sig == "" {
+					w.R.Inconc("watchdog fired on " + what + " without a recognisable goroutine signature")
+				} else {
+					world.Violate("C08", "wedged/"+sig, fmt.Sprintf("%s did not return while the truncation loop was woken under write load; goroutine states: %s\n%s", what, sig, detail))
+				}
+			}
+			stop.Store(true)
+		}
+	}
+	// two proposers
+	for p := 0; p < 2; p++ {
+		wg.Add(1)
+		go func(p int) {
+			defer wg.Done()
+			for i := 0; !stop.Load(); i++ {
+				t := newTrx(i, fmt.Sprintf("p%d-%d", p, i))
+				guarded("CreateLeaf", func() { book.CreateLeaf(context.Background(), &t) })
+			}
+		}(p)
+	}
+	// two gossiping peers, each extending its own chain from a tip it saw
+	for g := 0; g < 2; g++ {
+		wg.Add(1)
+		go func(g int) {
+			defer wg.Done()
+			var tip ledger.H
+			guarded("snapshot", func() { tip, _ = e.tipAndAncestors() })
+			var wgt uint64 = 30
+			for i := 0; !stop.Load(); i++ {
+				t := newTrx(i, fmt.Sprintf("g%d-%d", g, i))
+				mu.Lock()
+				v := ledger.ForgeVertex(world.Sealers[g%2], t, tip, tip, wgt+1, world.Now())
+				mu.Unlock()
+				var aerr error
+				guarded("AddLeaf", func() { aerr = book.AddLeaf(context.Background(), ledger.CloneVertex(&v)) })
+				if aerr == nil {
+					tip, wgt = v.Hash, v.Weight
+				}
+			}
+		}(g)
+	}
+	// wake the truncation loop a few times: every heavy vertex crosses the next mark
+	heavy := uint64(3600)
+	woken := 0
+	for k := 0; k < 4 && !stop.Load(); k++ {
+		time.Sleep(150 * time.Millisecond)
+		var tip ledger.H
+		guarded("snapshot", func() { tip, _ = e.tipAndAncestors() })
+		if stop.Load() {
+			break
+		}
+		t := newTrx(k, fmt.Sprintf("heavy-%d", k))
+		mu.Lock()
+		hv := ledger.ForgeVertex(world.Sealers[0], t, tip, tip, heavy, world.Now())
+		mu.Unlock()
+		guarded("AddLeaf of a heavy vertex", func() {
+			if book.AddLeaf(context.Background(), ledger.CloneVertex(&hv)) == nil {
+				woken++
+			}
+		})
+		heavy = heavy*2 + 2500
+	}
+	time.Sleep(150 * time.Millisecond)
+	stop.Store(true)
+	wg.Wait()
+	if !dead.Load() {
+		guarded("CalculateBalance after the load", func() { book.CalculateBalance(context.Background(), u[1].Addr) })
+	}
+	w.R.Eval(1)
+	w.R.Count("c08_truncate_under_load_writes", int(done.Load()))
+	w.R.Count("c08_truncate_under_load_wakeups", woken)
+	w.R.Nontriv(fmt.Sprintf("truncate-under-load/wakeups=%d/wedged=%v", woken, dead.Load()))
+	if !dead.Load() {
+		world.Close()
+	}
+}
+
 // c08RetryExhaustion: an orphan whose parent never arrives uses up its retries (an error path of the orphan buffer);
 // afterwards every operation still completes: more orphans, proposals, reads, streaming.
 func c08RetryExhaustion(w *core.WorkerCtx) {
@@ -724,6 +840,7 @@ func c08Worker(w *core.WorkerCtx) {
 		c08InternalExits(w)
 		c08HeavyVertex(w)
 		c08RetryExhaustion(w)
+		c08TruncateUnderLoad(w)
 		c08AsyncCancel(w)
 	}
 }
@@ -751,6 +868,12 @@ func init() {
 			if c.TimedOut {
 				if containsAny(c.Stderr, "walkAncestors") && containsAny(c.Stderr, "chan send") {
 					res.Violate("C08", "wedged/worker-watchdog/walker-parked", "the worker did not finish; its goroutine dump shows an ancestors walker parked in chan send; last mark: "+c.LastMark, map[string]any{"marks": c.Marks})
+					return
+				}
+				// the dump of a worker that never finished: goroutines of the ledger blocked for good on its own locks
+				// or on its signal channel while holding them
+				if containsAny(c.Stderr, "accountant.(*AccountingBook)") && containsAny(c.Stderr, "sync.RWMutex", "sync.Mutex.Lock", "chan send") && containsAny(c.Stderr, "minutes]") {
+					res.Violate("C08", "wedged/worker-watchdog/ledger-goroutines-blocked", "the worker did not finish; its goroutine dump shows ledger goroutines blocked for minutes on the ledger's own locks / signal channel; last mark: "+c.LastMark, map[string]any{"marks": c.Marks, "stderr_head": headN(c.Stderr, 4000)})
 					return
 				}
 			}
